@@ -14,6 +14,7 @@ package main
 //   rejected_released             rejected credentials: CONNACK 5, connection closed, no Setup/Terminate, no will
 //   late_connection_released      a connection arriving during / after the backend's shutdown is refused and released
 //   shutdown_closes_all           Close with live clients returns in time and every connection is closed
+//   close_waits                   … and not before the cleanup of every client it found is through (temporary and stored sessions)
 //   lifecycle / shutdown / goroutines / log_*  (every scenario's end())
 // a panic of a broker goroutine kills the harness: checks/_sys.py attributes it to the running scenario (process_survives).
 
@@ -145,7 +146,8 @@ func connectBytesPersistent(id string) []byte {
 func hostiles() []hostile {
 	big := strings.Repeat("x", 65535)
 	var hs []hostile
-	add := func(name string, f func(sc *scen, c *hx.Ctx)) { hs = append(hs, hostile{name, 10, 1000, f}) }
+	// (window 0, queue 0: the library's defaults, 10 and 100, for every other hostile)
+	add := func(name string, f func(sc *scen, c *hx.Ctx)) { hs = append(hs, hostile{name, 10 * (len(hs) % 2), 1000 * (len(hs) % 2), f}) }
 	add("garbage", func(sc *scen, c *hx.Ctx) {
 		for i := 0; i < 20; i++ {
 			b := make([]byte, 1+c.Rng.Intn(64))
@@ -477,9 +479,12 @@ func hostileScenario(o *out, c *hx.Ctx, h hostile) {
 	sc.direct("witness_order", ok, d)
 	okSub := sub.subscribe(9, "probe/#", 1)
 	okPing := sub.ping() && pub.ping() && wall.ping() && anon.ping()
+	// the listener still accepts: a fresh client is served
+	fresh := sc.dial("fresh", true)
+	okPing = fresh.connect("fresh", true, nil) != nil && fresh.ping() && okPing
 	acked := waitFor(long, func() bool { return ackCount(pub) >= sent+1 })
 	sc.direct("witness_probe", complete && g[sent] && okSub && okPing && acked,
-		fmt.Sprintf("after the hostile peer: a further QoS 2 message delivered=%v, every publish acknowledged to the publisher=%v, new subscription acknowledged=%v, PINGREQ answered on all four=%v", g[sent], acked, okSub, okPing))
+		fmt.Sprintf("after the hostile peer: a further QoS 2 message delivered=%v, every publish acknowledged to the publisher=%v, new subscription acknowledged=%v, PINGREQ answered on all four and on a fresh connection=%v", g[sent], acked, okSub, okPing))
 }
 
 // faultAtCallSite: one backend call site fails for every call made by the victim's connection; the victim's connection ends,
@@ -622,8 +627,8 @@ func shutdownBetweenAuthAndSetup(o *out, c *hx.Ctx) {
 }
 
 // closeWithLiveClients: Close while clients are connected in various states returns in time, closes them all, every connection is released
-func closeWithLiveClients(o *out, c *hx.Ctx) {
-	sc := o.begin(c, "c14 backend closed with live clients", 2, 100)
+func closeWithLiveClients(o *out, c *hx.Ctx, last string) {
+	sc := o.begin(c, "c14 backend closed with live clients, the last cleanup to get through is that of a client with a "+last+" session", 2, 100)
 	defer sc.end()
 	b := sc.s.backend
 	var ps []*peer
@@ -644,12 +649,47 @@ func closeWithLiveClients(o *out, c *hx.Ctx) {
 	}
 	ps[1].send(&packet.Publish{ID: 9, Message: packet.Message{Topic: "t/y", Payload: []byte("open"), QOS: 2}})
 	waitFor(long, func() bool { return ackCount(ps[0]) >= 4 })
+	// the cleanup of one client with a temporary and of one with a stored session is held back: Close has to wait for both
+	rel0 := sc.gate(b.holdTerminate("live0", 1))
+	rel1 := sc.gate(b.holdTerminate("live1", 1))
+	if last == "temporary" {
+		rel0, rel1 = rel1, rel0 // live0 has a temporary session, live1 a stored one
+	}
 	closed := make(chan bool, 1)
 	go func() { closed <- b.Close(long) }()
-	var ok bool
+	held := waitFor(long, func() bool { return b.termEntered("live0", 1) && b.termEntered("live1", 1) })
+	time.Sleep(absence)
+	var ok, early bool
 	select {
 	case ok = <-closed:
-	case <-time.After(2 * long):
+		early = true
+	default:
+	}
+	rel0()
+	time.Sleep(absence)
+	select {
+	case ok = <-closed:
+		early = true
+	default:
+	}
+	rel1()
+	if !early {
+		select {
+		case ok = <-closed:
+		case <-time.After(2 * long):
+		}
+	}
+	sc.direct("close_waits", held && !early, fmt.Sprintf("two clients' cleanups held inside Terminate (reached=%v): Close returned before both were released=%v", held, early))
+	// when Close returns true every client it found is through its cleanup
+	through := 0
+	for i := range ps {
+		id := fmt.Sprintf("live%d", i)
+		if i == 5 {
+			id = ""
+		}
+		if cl := b.nth(id, 1); cl != nil && closedNow(cl) {
+			through++
+		}
 	}
 	all := true
 	for _, p := range ps {
@@ -657,7 +697,7 @@ func closeWithLiveClients(o *out, c *hx.Ctx) {
 			all = false
 		}
 	}
-	sc.direct("shutdown_closes_all", ok && all, fmt.Sprintf("Close with six live clients returned true in time=%v; every connection closed by the broker=%v", ok, all))
+	sc.direct("shutdown_closes_all", ok && all && through == len(ps), fmt.Sprintf("Close with six live clients returned true in time=%v; closed signal fired for %d of %d of them when it returned; every connection closed by the broker=%v", ok, through, len(ps), all))
 	late := sc.dial("late", true)
 	ack := late.connect("late", true, nil)
 	sc.direct("late_connection_released", (ack == nil || ack.ReturnCode != packet.ConnectionAccepted) && late.isClosed(long), "a connection arriving after Close is refused and closed")
@@ -739,7 +779,8 @@ func runC14(c *hx.Ctx) {
 			sc.end()
 		}
 		shutdownBetweenAuthAndSetup(o, c)
-		closeWithLiveClients(o, c)
+		closeWithLiveClients(o, c, "temporary")
+		closeWithLiveClients(o, c, "stored")
 		shutdownDuringTakeover(o, c)
 	}
 	closeThenConnect(o, c)
